@@ -741,6 +741,11 @@ func (r *replayer) runNative(pkg, fn, path, kind, assertion string) (string, boo
 		if assertion == "alloc-within-budget" && (native == "fatal out of memory" || strings.Contains(native, "makeslice") || strings.Contains(native, "out of range")) {
 			return native, true
 		}
+		// a decode of a few bytes that is still running when the 30 s replay
+		// deadline expires loops or works out of all proportion to its input
+		if (assertion == "work-in-proportion-to-input" || assertion == "alloc-within-budget") && native == "timeout" {
+			return "timeout: the call did not return within the 30 s replay deadline", true
+		}
 		return native, strings.HasPrefix(native, "assert-failed")
 	case "panic":
 		return native, strings.HasPrefix(native, "panic") || strings.HasPrefix(native, "assert-failed") || strings.HasPrefix(native, "fatal")
